@@ -70,6 +70,19 @@ CHECKS.update({
     ),
 })
 
+CHECKS.update({
+    "C08": (
+        "Hypothesis-generated lock histories (arrays, NumPy views, no-copy tensors, ops, out=, in-place, failures, backward/clear/drop in any order) with an independently recomputed must-be-locked set after every step",
+        "Generated search over histories of overlapping graphs sharing arrays; after every step the set of arrays that "
+        "must be read-only is recomputed by walking creator->inputs from the tensors the harness still holds (never "
+        "from the lock manager's counters) and both directions are asserted: locked while live, original flag once no "
+        "live graph refers to the array, all original at quiescence. Exploration only.",
+        "Relies on CPython refcounting for drops; arrays that never entered an op are not asserted; one documented "
+        "upstream leak is a recorded known finding (narrow history signature).",
+        "DESIGN.md §3 C08",
+    ),
+})
+
 NOT_YET = {
 }
 
